@@ -95,6 +95,19 @@ V = [
     ('internal/context.go', "\t\tdelete(c.vars, key)\n", "\t\tdelete(c.vars, key)\n\t\tif len(c.vars) == 0 {\n\t\t\tc.vars = nil\n\t\t}\n")),
  ('H5 harmless: getg reads the stack header through 32 bytes (every int64 numeral fits)', 'quiet') + edit(
     ('threadlocal/gid.go', "\tvar buf [64]byte\n\n\tl := runtime.Stack(buf[:64], false)", "\tvar buf [32]byte\n\n\tl := runtime.Stack(buf[:], false)")),
+ # ---- third round (strengthening after the seeded change C14-m5: goroutines that end by runtime.Goexit) ----
+ ('S5 seeded C14-m5: px.Fork releases the storage after the doer instead of in a deferred call', 'fire') + edit(
+    ('px/context.go', "\t\tdefer threadlocal.Cleanup()\n\t\tthreadlocal.Init()\n\t\tthreadlocal.Set(PuppetContextKey, cf)\n\t\tdoer(cf)\n",
+     "\t\tthreadlocal.Init()\n\t\tthreadlocal.Set(PuppetContextKey, cf)\n\t\tdoer(cf)\n\t\tthreadlocal.Cleanup()\n")),
+ ('V6 threadlocal.Go releases the storage on return and on panic (recover, re-panic), not on Goexit', 'fire') + edit(
+    ('threadlocal/gid.go', "\t\tdefer Cleanup()\n\t\tInit()\n\t\tf()\n",
+     "\t\tdefer func() {\n\t\t\tif r := recover(); r != nil {\n\t\t\t\tCleanup()\n\t\t\t\tpanic(r)\n\t\t\t}\n\t\t}()\n\t\tInit()\n\t\tf()\n\t\tCleanup()\n")),
+ ('V7 DoWithContext releases the storage it created on return and on panic (recover, re-panic), not on Goexit', 'fire') + edit(
+    ('px/context.go', "\t\tthreadlocal.Init()\n\t\tdefer threadlocal.Cleanup()\n\t}\n\tthreadlocal.Set(PuppetContextKey, ctx)\n\tactor(ctx)\n",
+     "\t\tthreadlocal.Init()\n\t\tdefer func() {\n\t\t\tif r := recover(); r != nil {\n\t\t\t\tthreadlocal.Cleanup()\n\t\t\t\tpanic(r)\n\t\t\t}\n\t\t}()\n\t\tthreadlocal.Set(PuppetContextKey, ctx)\n\t\tactor(ctx)\n\t\tthreadlocal.Cleanup()\n\t\treturn\n\t}\n\tthreadlocal.Set(PuppetContextKey, ctx)\n\tactor(ctx)\n")),
+ ('H6 harmless: px.Fork registers the deferred Cleanup after Init, through a closure', 'quiet') + edit(
+    ('px/context.go', "\t\tdefer threadlocal.Cleanup()\n\t\tthreadlocal.Init()\n\t\tthreadlocal.Set(PuppetContextKey, cf)\n\t\tdoer(cf)\n",
+     "\t\tthreadlocal.Init()\n\t\tdefer func() { threadlocal.Cleanup() }()\n\t\tthreadlocal.Set(PuppetContextKey, cf)\n\t\tdoer(cf)\n")),
 ]
 
 only = sys.argv[1:]
